@@ -168,6 +168,15 @@ def call(px, st, name, t, args, fid, fn):
             else:
                 outs.extend(px.call_closure(s2, args[1], []))
         return outs
+    if re.search(r'array::<impl std::convert::TryFrom<&(mut )?\[T\]> for \[T; N\]>::try_from$', n) or re.search(r'array::<impl std::convert::TryFrom<&\[T\]> for &\[T; N\]>::try_from$', n):
+        m = re.search(r'\[[^;\]]+; (\d+)(_usize)?\]', t.get('ga', ''))
+        if m:
+            return [(st, ('arrres', px.subject_of(st, args[0]), int(m.group(1))))]
+    if n.endswith('result::Result::<T, E>::or'):
+        outs = []
+        for tag, s2 in px.decide_tag(st, args[0]):
+            outs.append((s2, ('adt', 'core::std::result::Result', 'Ok', (px.pos_payload(s2, args[0]),)) if tag == 'pos' else args[1]))
+        return outs
     if n.endswith('option::Option::<T>::or'):
         outs = []
         for tag, s2 in px.decide_tag(st, args[0]):
@@ -766,6 +775,11 @@ def decide_tag(px, st, c):
             s2.shapes[subj] = fshape
             out.append(('neg', s2))
         return out
+    if k == 'arrres':
+        subj, N = c[1], c[2]
+        shp = shape_get(st, subj)
+        tt, ff = shp.split_len(lambda n: n == N)
+        return [('pos' if b else 'neg', s2) for b, s2 in split_state(st, subj, tt, ff)]
     if k == 'getres':
         subj, i = c[1], c[2]
         shp = shape_get(st, subj)
@@ -775,6 +789,8 @@ def decide_tag(px, st, c):
 
 
 def pos_payload_ext(px, st, v):
+    if v[0] == 'arrres':
+        return ('arrval', v[1], v[2])
     if v[0] == 'getres':
         return px.mkref(('I', v[1], INT(v[2])))
     return None
